@@ -179,7 +179,13 @@ class RunDomain(DefaultDomain):
                     outs.extend(self._inline_call(interp, v[1], call, r.state, fr, skip_self=False))
                 elif v == TOP and isinstance(func, ast.Name) and r.state.has(fr.local(func.id)):
                     # an unknown callable handed in by the caller (a parameter): user code
-                    outs.extend(self._with_args(interp, call, r.state, fr, lambda s: self._user_call(("user", func.id), call, s)))
+                    # (named after the runner method it is reached through, not after the parameter)
+                    stage, f_ = func.id, fr
+                    while f_ is not None:
+                        if f_.name == "_run_cleanups":
+                            stage = "cleanup"
+                        f_ = getattr(f_, "caller", None)
+                    outs.extend(self._with_args(interp, call, r.state, fr, lambda s, stage=stage: self._user_call(("user", stage), call, s)))
                 else:
                     return None
             return outs
